@@ -283,6 +283,7 @@ type panelWorld struct {
 	dumps   []string
 	inexact bool // a traffic unit went through a session whose first (padded) frames had not been sent: sizes unknown
 	structOK bool // the current step agrees with the model in everything but stored credits
+	prevExp  *panelObs // the model's view of the previous step
 }
 
 var panelCur atomic.Pointer[panelWorld]
@@ -291,6 +292,7 @@ var panelHookOnce sync.Once
 
 func panelInstallHook() {
 	panelHookOnce.Do(func() {
+		log.AddHook(panelLogGate{})
 		verifhook.Set(func(point string, args ...uint64) {
 			name, ok := panelHookNames[point]
 			if !ok {
@@ -307,6 +309,42 @@ func panelInstallHook() {
 			w.at(v.(*panelProc), name, args)
 		})
 	})
+}
+
+// panelLogGate makes the debug line that Session.SetTerminalMsg emits a schedule point ("closing"): CloseSession calls
+// SetTerminalMsg right before Session.Close, i.e. at the moment the session has (or, with the deviation
+// CloseAfterUnlock, has not) left the table and is still fully open. logrus fires hooks without holding its lock.
+// closeAllSessions passes the same line; it is not a schedule point.
+type panelLogGate struct{}
+
+func (panelLogGate) Levels() []log.Level { return []log.Level{log.DebugLevel} }
+func (panelLogGate) Fire(e *log.Entry) error {
+	if !strings.HasPrefix(e.Message, "terminal message set to") {
+		return nil
+	}
+	w := panelCur.Load()
+	if w == nil || w.trace != nil || !w.gates["closing"] {
+		return nil
+	}
+	v, ok := w.byGoid.Load(panelGoid())
+	if !ok {
+		return nil
+	}
+	pcs := make([]uintptr, 24)
+	frames := runtime.CallersFrames(pcs[:runtime.Callers(2, pcs)])
+	for {
+		f, more := frames.Next()
+		if strings.HasSuffix(f.Function, ".closeAllSessions") {
+			return nil
+		}
+		if strings.HasSuffix(f.Function, ".CloseSession") {
+			w.at(v.(*panelProc), "closing", nil)
+			return nil
+		}
+		if !more {
+			return nil
+		}
+	}
 }
 
 var panelGoidRe = regexp.MustCompile(`^goroutine (\d+) \[([^\],]+)`)
@@ -346,6 +384,11 @@ func panelNewWorld(env *panelEnv, cfg panelCfg, nproc int) (*panelWorld, error) 
 		events: make(chan panelEvent, 4096), gates: map[string]bool{"start": true, "serve": true}}
 	for _, g := range cfg.Gates {
 		w.gates[g] = true
+	}
+	if w.gates["closing"] {
+		log.SetLevel(log.DebugLevel) // the schedule point is a debug line; output stays discarded
+	} else {
+		log.SetLevel(log.PanicLevel)
 	}
 	w.panel = &userPanel{
 		Manager:          panelMgr{env.mgr, w},
@@ -1161,6 +1204,8 @@ func panelWhyKey(why string) string {
 	switch why {
 	case "getuser-check-then-act":
 		return "getuser-check-then-act"
+	case "close-after-unlock":
+		return "close-after-unlock"
 	case "lookup-gap":
 		return "lookup-gap-vs-terminate"
 	case "stale-terminate":
@@ -1277,6 +1322,19 @@ func (w *panelWorld) predicates2(got *panelObs, exp *panelObs, prev *panelObs, a
 			}
 		}
 	}
+	// ---- C15 NoStartWhenBroke, by usage: the model (followed in structure up to the previous step) says the user's credit
+	// is used up / the user is expired or deleted, before and after this step - whatever the database was left with
+	if prev != nil && exp != nil && agreedBefore && w.prevExp != nil {
+		for i := len(prev.Obj); i < len(got.Obj); i++ {
+			u := got.Obj[i].U
+			if !exp.Db[u-1].Auth && !w.prevExp.Db[u-1].Auth {
+				want := w.expectedCharged(exp.Chg[u-1])
+				v = append(v, panelVerdict{Key: "start:exhausted", What: fmt.Sprintf(
+					"session %d was created for user %d although completed uploads contained %v bytes (up, down) of its usage against a credit of %v (+%v topped up), or the user is expired / deleted (model: %+v); the stored record says up=%d down=%d",
+					i+1, u, want, w.baseCr[u], w.topReal[u], exp.Db[u-1], got.Db[u-1].C.Rx, got.Db[u-1].C.Tx)})
+			}
+		}
+	}
 	// ---- C16
 	for u := 1; u <= w.cfg.NU; u++ {
 		db := got.Db[u-1]
@@ -1368,6 +1426,7 @@ func (w *panelWorld) shutdown() {
 			p.op.K = "abandoned"
 		}
 	}
+	log.SetLevel(log.PanicLevel)
 	for _, o := range w.objs {
 		o.sesh.Close()
 		if o.client != nil {
@@ -1418,6 +1477,12 @@ func panelRun(env *panelEnv, b *panelBehaviour) (out panelOutcome) {
 	}
 	prev := w.observe(len(b.Prog))
 	agreed := true
+	creditDrift := ""
+	defer func() {
+		if out.Diverged == "" && creditDrift != "" && strict {
+			out.Diverged = creditDrift
+		}
+	}()
 	for i := range b.Steps {
 		st := &b.Steps[i]
 		out.Steps = i + 1
@@ -1489,9 +1554,14 @@ func panelRun(env *panelEnv, b *panelBehaviour) (out panelOutcome) {
 		if strict || (hypo && agreed) {
 			exp = &st.Obs
 			sd, cd := w.compare2(exp, &got)
-			diffs = append(sd, cd...)
+			diffs = sd
 			w.structOK = len(sd) == 0
-			agreed = agreed && len(diffs) == 0
+			agreed = agreed && len(sd) == 0
+			if len(cd) > 0 && creditDrift == "" {
+				// stored credits differ from the model's account: recorded (drift unless a predicate fails), the schedule goes on
+				creditDrift = fmt.Sprintf("step %d (%s): %s", i+1, panelEvString(st.Ev), strings.Join(cd, "; "))
+				w.logf("   MODEL (credits): %s", strings.Join(cd, "; "))
+			}
 			if hypo && !agreed {
 				out.Refuted = fmt.Sprintf("step %d (%s): %s", i+1, panelEvString(st.Ev), strings.Join(diffs, "; "))
 				exp = nil
@@ -1507,6 +1577,7 @@ func panelRun(env *panelEnv, b *panelBehaviour) (out panelOutcome) {
 			break
 		}
 		prev = got
+		w.prevExp = exp
 	}
 	if (strict || hypo) && len(b.Steps) > 0 {
 		if last := b.Steps[len(b.Steps)-1].Obs; !last.Quiet && !last.Dead && out.Diverged == "" && agreed {
